@@ -20,6 +20,12 @@
 //            first eligible and one more plain-EM sub-iteration of every case the Lean model forms numerator AND sensitivity
 //            itself (`emExplicit`: bins of the subset, segments to process, end planes of segment 0 zeroed) and answers 24
 //            voxels of the image after (`emx`)
+//   filter : (round 4) user filters that are real registered data processors, alone and as the USER'S OWN ChainedDataProcessor
+//            objects (2, 3 and more members, smoothing + sharpening in both orders, chains holding a thresholding member, nested
+//            chains, null members) in the inter-update / inter-iteration / post-filter slot, through the setters and parsed from
+//            parameter files, set_up() called 1-3 times in a row on the object; the Lean model wraps the slot as set_up does and
+//            applies the object (operations `upd` / `eoi` / `post` with a section C); the data processors on their own (`flt`)
+//   dvt    : divide_and_truncate through the public function on related viewgrams (0/0, zero / negative denominators ...)
 //   synth  : the same class with its documented protected virtual hooks
 //            (compute_sub_gradient_without_penalty_plus_sensitivity / get_subset_sensitivity) and a harness-defined prior
 //            feeding adversarial data (zeros, tiny values, negatives, values around every clamp) to the update rule.
@@ -35,7 +41,10 @@
 //                  sensitivity in use; `recompute sensitivity := 0` + the names (setters or parameter-file keywords) reads them:
 //                  saved iterates bitwise those of the run that computes them; with files holding twice the sensitivity the
 //                  sensitivity in use is twice the computed one (and the sub-iteration is the model's with S := 2 s)
-//   nonneg       : non-negative image stays non-negative
+//   nonneg       : non-negative image stays non-negative (all tests NaN-aware: a NaN is "not non-negative"); filter stream: with
+//                  the user's filters on, after every sub-iteration; strictly positive after a fired inter-iteration filter
+//   viewgrams    : every quotient of divide_and_truncate is a number in [0, 10^4], exactly 0 for a bin without counts (0/0
+//                  included), y/ybar on the regular region
 //   counts       : one subset, no additive: sum_j s_j lambda'_j = sum_b y_b
 //   monotone     : one subset, no prior: Poisson log-likelihood (compute_objective_function) does not decrease, and equals
 //                  the textbook value
@@ -84,6 +93,17 @@
 #include "stir/ProjDataInMemory.h"
 #include "stir/ProjDataInterfile.h"
 #include "stir/DataProcessor.h"
+#include "stir/ChainedDataProcessor.h"
+#include "stir/ThresholdMinToSmallPositiveValueDataProcessor.h"
+#include "stir/SeparableGaussianImageFilter.h"
+#include "stir/SeparableConvolutionImageFilter.h"
+#include "stir/SeparableCartesianMetzImageFilter.h"
+#include "stir/MedianImageFilter3D.h"
+#include "stir/MinimalImageFilter3D.h"
+#include "stir/TruncateToCylindricalFOVImageProcessor.h"
+#include "stir/KeyParser.h"
+#include "stir/RelatedViewgrams.h"
+#include "stir/recon_array_functions.h"
 #include "stir/DiscretisedDensity.h"
 #include "stir/ViewSegmentNumbers.h"
 #include "stir/Viewgram.h"
@@ -515,6 +535,275 @@ protected:
   }
 };
 
+// ------------------------------------------------------------------------------------------------ user filter objects
+// What a user can put into a filter slot of OSMAPOSL: any registered data processor, in particular a ChainedDataProcessor
+// ("Chained Data Processor") of his own, nested at will.  A description (FSpec) is turned into real STIR objects either through
+// constructors / setters or by parsing the text that a parameter file would hold for it.
+struct FSpec
+{
+  // 0 Separable Gaussian (p = FWHM in mm, x and y), 1 Separable Convolution, sharpening kernel [-p 1+2p -p] in x and y,
+  // 2 Separable Cartesian Metz (p = FWHM in mm, power 2: negative lobes), 3 Median (radius 1 in x and y),
+  // 4 Truncate To Cylindrical FOV (zeros outside), 5 the harness-defined LogFilter (p = shift; cannot be parsed),
+  // 6 Threshold Min To Small Positive Value, 7 Chained Data Processor (kids[0], kids[1]), 8 a null pointer,
+  // 9 Minimal (radius 1 in x and y)
+  int kind = 8;
+  float p = 0.F;
+  std::vector<FSpec> kids;
+  bool is_null() const { return kind == 8; }
+  bool is_leaf() const { return kind <= 5 || kind == 9; }
+  static FSpec leaf(int kind, float p = 0.F)
+  {
+    FSpec f;
+    f.kind = kind;
+    f.p = p;
+    return f;
+  }
+  static FSpec chain(const FSpec& a, const FSpec& b)
+  {
+    FSpec f;
+    f.kind = 7;
+    f.kids.push_back(a);
+    f.kids.push_back(b);
+    return f;
+  }
+  bool parseable() const
+  {
+    if (kind == 5)
+      return false;
+    for (auto& k : kids)
+      if (!k.parseable())
+        return false;
+    return true;
+  }
+  int leaves() const
+  {
+    int n = is_leaf() ? 1 : 0;
+    for (auto& k : kids)
+      n += k.leaves();
+    return n;
+  }
+  int members() const // data processors that do something
+  {
+    int n = (is_leaf() || kind == 6) ? 1 : 0;
+    for (auto& k : kids)
+      n += k.members();
+    return n;
+  }
+  bool has_chain() const { return kind == 7; }
+  // prefix notation for the Lean model: u = user filter (leaf), t = thresholding, c X Y = chain, n = null
+  std::string descr() const
+  {
+    if (kind == 7)
+      return "c " + kids[0].descr() + " " + kids[1].descr();
+    return kind == 8 ? "n" : (kind == 6 ? "t" : "u");
+  }
+  std::string name() const
+  {
+    static const char* const names[] = { "Gaussian", "sharpen", "Metz", "median", "truncate", "logfilter", "threshold", "chain", "null", "minimal" };
+    if (kind == 7)
+      return "chain(" + kids[0].name() + "," + kids[1].name() + ")";
+    return names[kind];
+  }
+};
+
+static std::string
+fmt_float9(float x)
+{
+  char buf[64];
+  std::snprintf(buf, sizeof buf, "%.9g", static_cast<double>(x));
+  return buf;
+}
+
+// the text a parameter file holds after `<some> filter type := ` for this object (registered name, then its parameter block)
+static std::string
+filter_text(const FSpec& f)
+{
+  switch (f.kind)
+    {
+    case 0:
+      return "Separable Gaussian\nSeparable Gaussian Filter Parameters :=\nx-dir filter FWHM (in mm) := " + fmt_float9(f.p)
+             + "\ny-dir filter FWHM (in mm) := " + fmt_float9(f.p) + "\nz-dir filter FWHM (in mm) := 0\nEND Separable Gaussian Filter Parameters :=\n";
+    case 1:
+      {
+        const std::string k = "{" + fmt_float9(-f.p) + ", " + fmt_float9(1.F + 2.F * f.p) + ", " + fmt_float9(-f.p) + "}";
+        return "Separable Convolution\nSeparable Convolution Filter Parameters :=\nx-dir filter coefficients := " + k
+               + "\ny-dir filter coefficients := " + k + "\nz-dir filter coefficients := {1}\nEND Separable Convolution Filter Parameters :=\n";
+      }
+    case 2:
+      return "Separable Cartesian Metz\nSeparable Cartesian Metz Filter Parameters :=\nx-dir filter FWHM (in mm) := " + fmt_float9(f.p)
+             + "\ny-dir filter FWHM (in mm) := " + fmt_float9(f.p)
+             + "\nz-dir filter FWHM (in mm) := 0\nx-dir filter Metz power := 2\ny-dir filter Metz power := 2\nz-dir filter Metz power := 0\n"
+               "END Separable Cartesian Metz Filter Parameters :=\n";
+    case 3:
+      return "Median\nMedian Filter Parameters :=\nmask radius x := 1\nmask radius y := 1\nmask radius z := 0\nEND Median Filter Parameters :=\n";
+    case 9:
+      return "Minimal\nMinimal Filter Parameters :=\nmask radius x := 1\nmask radius y := 1\nmask radius z := 0\nEND Minimal Filter Parameters :=\n";
+    case 4:
+      return "Truncate To Cylindrical FOV\nTruncate To Cylindrical FOV Parameters :=\nEND Truncate To Cylindrical FOV Parameters :=\n";
+    case 6:
+      return "Threshold Min To Small Positive Value\nThreshold Min To Small Positive Value Parameters :=\n"
+             "END Threshold Min To Small Positive Value Parameters :=\n";
+    case 7:
+      {
+        std::string t = "Chained Data Processor\nChained Data Processor Parameters :=\n";
+        if (!f.kids[0].is_null())
+          t += "Data Processor to apply first := " + filter_text(f.kids[0]);
+        if (!f.kids[1].is_null())
+          t += "Data Processor to apply second := " + filter_text(f.kids[1]);
+        return t + "END Chained Data Processor Parameters :=\n";
+      }
+    default:
+      throw std::runtime_error("HARNESS: this filter cannot be written to a parameter file");
+    }
+}
+
+static shared_ptr<DataProcessor<TargetT>>
+parse_filter(const std::string& text)
+{
+  shared_ptr<DataProcessor<TargetT>> ptr;
+  KeyParser kp;
+  kp.add_start_key("verif filter parameters");
+  kp.add_parsing_key("filter type", &ptr);
+  kp.add_stop_key("END verif filter parameters");
+  std::istringstream is("verif filter parameters :=\nfilter type := " + text + "END verif filter parameters :=\n");
+  if (!kp.parse(is) || is_null_ptr(ptr))
+    throw std::runtime_error("HARNESS: filter text did not parse");
+  return ptr;
+}
+
+// the real objects: `from_text`: as a parameter file makes them (registry + parsing); otherwise constructors / setters
+// (the Metz filter has no setters: parsed in both cases)
+static shared_ptr<DataProcessor<TargetT>>
+make_filter(const FSpec& f, bool from_text)
+{
+  typedef shared_ptr<DataProcessor<TargetT>> P;
+  if (f.is_null())
+    return P();
+  if (from_text)
+    return parse_filter(filter_text(f));
+  switch (f.kind)
+    {
+    case 0:
+      {
+        shared_ptr<SeparableGaussianImageFilter<float>> gf(new SeparableGaussianImageFilter<float>);
+        gf->set_fwhms(make_coordinate(0.F, f.p, f.p));
+        return gf;
+      }
+    case 1:
+      {
+        VectorWithOffset<float> k1(0, 0);
+        k1[0] = 1.F;
+        VectorWithOffset<float> k3(-1, 1);
+        k3[-1] = -f.p;
+        k3[0] = 1.F + 2.F * f.p;
+        k3[1] = -f.p;
+        VectorWithOffset<VectorWithOffset<float>> coeffs(1, 3);
+        coeffs[1] = k1;
+        coeffs[2] = k3;
+        coeffs[3] = k3;
+        return P(new SeparableConvolutionImageFilter<float>(coeffs));
+      }
+    case 2:
+      return parse_filter(filter_text(f));
+    case 3:
+      return P(new MedianImageFilter3D<float>(CartesianCoordinate3D<int>(0, 1, 1)));
+    case 9:
+      return P(new MinimalImageFilter3D<float>(CartesianCoordinate3D<int>(0, 1, 1)));
+    case 4:
+      return P(new TruncateToCylindricalFOVImageProcessor<float>);
+    case 5:
+      return P(new LogFilter(f.p));
+    case 6:
+      return P(new ThresholdMinToSmallPositiveValueDataProcessor<TargetT>);
+    default:
+      return P(new ChainedDataProcessor<TargetT>(make_filter(f.kids[0], false), make_filter(f.kids[1], false)));
+    }
+}
+
+// the members of the described object applied ONE BY ONE, each as a fresh object of its own (in place, as OSMAPOSL applies its
+// filters): what every user filter (leaf) returned is the data of the Lean model, which chains them itself
+static void
+walk_filter(const FSpec& f, bool from_text, TargetT& img, std::vector<Vec>& leaf_outputs)
+{
+  if (f.is_null())
+    return;
+  if (f.kind == 7)
+    {
+      walk_filter(f.kids[0], from_text, img, leaf_outputs);
+      walk_filter(f.kids[1], from_text, img, leaf_outputs);
+      return;
+    }
+  if (make_filter(f, from_text)->apply(img) != Succeeded::yes)
+    throw std::runtime_error("HARNESS: a member filter could not be applied");
+  if (f.is_leaf())
+    leaf_outputs.push_back(to_vec(img));
+}
+
+static FSpec
+random_leaf(vh::Rng& rng, int cls, bool allow_log) // cls 0: smoothing, 1: output with negative values, 2: any
+{
+  if (cls == 2)
+    cls = rng.range(0, 2) == 0 ? 0 : 1;
+  if (cls == 0)
+    {
+      const int k = rng.range(0, 4);
+      if (k == 0)
+        return FSpec::leaf(3);
+      if (k == 1)
+        return FSpec::leaf(4);
+      if (k == 4)
+        return FSpec::leaf(9);
+      return FSpec::leaf(0, static_cast<float>(2.5 + 3 * rng.unit()));
+    }
+  const int k = rng.range(0, allow_log ? 3 : 2);
+  if (k == 2)
+    return FSpec::leaf(2, static_cast<float>(3. + 3 * rng.unit()));
+  if (k == 3)
+    return FSpec::leaf(5, static_cast<float>(0.05 + 0.3 * rng.unit()));
+  return FSpec::leaf(1, static_cast<float>(0.2 + 0.25 * rng.unit())); // [-0.3 1.6 -0.3] and the like
+}
+
+// what a user puts into a slot: single filters and chains of 2 and 3 members, smoothing + sharpening in both orders, chains that
+// hold a thresholding already, nested chains, chains with a null member
+static FSpec
+random_slot(vh::Rng& rng, bool allow_log)
+{
+  const FSpec thr = FSpec::leaf(6), null = FSpec::leaf(8);
+  auto smooth = [&]() { return random_leaf(rng, 0, allow_log); };
+  auto sharp = [&]() { return random_leaf(rng, 1, allow_log); };
+  auto any = [&]() { return random_leaf(rng, 2, allow_log); };
+  switch (rng.range(0, 13))
+    {
+    case 0:
+      return any();
+    case 1:
+    case 2:
+      return FSpec::chain(smooth(), sharp());
+    case 3:
+      return FSpec::chain(sharp(), smooth());
+    case 4:
+      return FSpec::chain(sharp(), thr);
+    case 5:
+      return FSpec::chain(thr, sharp());
+    case 6:
+      return FSpec::chain(FSpec::chain(smooth(), any()), sharp());
+    case 7:
+      return FSpec::chain(smooth(), FSpec::chain(any(), sharp()));
+    case 8:
+      return rng.coin() ? FSpec::chain(sharp(), null) : FSpec::chain(null, sharp());
+    case 9:
+      return FSpec::chain(FSpec::chain(sharp(), thr), FSpec::chain(smooth(), sharp()));
+    case 10:
+      return FSpec::chain(sharp(), sharp());
+    case 11:
+      return FSpec::chain(FSpec::chain(any(), sharp()), thr);
+    case 12:
+      return thr;
+    default:
+      return sharp();
+    }
+}
+
 // ------------------------------------------------------------------------------------------------ configuration
 struct RunCfg
 {
@@ -532,6 +821,10 @@ struct RunCfg
   bool post = false; // a post-filter (Reconstruction::set_post_processor_sptr)
   float post_shift = 0.F;
   bool zero_end = false; // `zero end planes of segment 0` (set_zero_seg0_end_planes)
+  // filter stream: the user's filter objects by description (instead of the LogFilter of iuf_shift / iif_shift / post_shift);
+  // `filters_from_text`: made as a parameter file makes them
+  shared_ptr<FSpec> fu_spec, fi_spec, fp_spec;
+  bool filters_from_text = false;
   // sensitivity files: 0 none (computed, not written); 1 `recompute sensitivity := 1` + file name(s): computed and WRITTEN;
   // 2 `recompute sensitivity := 0` + file name(s): READ from the files
   int sens_mode = 0;
@@ -584,6 +877,22 @@ template <class ReconT>
 static void
 configure_filters(ReconT& r, const RunCfg& c, Objects& o)
 {
+  if (c.fu_spec || c.fi_spec || c.fp_spec)
+    { // filter stream: real (registered) data processors, user chains
+      if (c.fu_spec)
+        {
+          r.set_inter_update_filter_interval(c.iuf);
+          r.set_inter_update_filter_ptr(make_filter(*c.fu_spec, c.filters_from_text));
+        }
+      if (c.fi_spec)
+        {
+          r.set_inter_iteration_filter_interval(c.iif);
+          r.set_inter_iteration_filter_ptr(make_filter(*c.fi_spec, c.filters_from_text));
+        }
+      if (c.fp_spec)
+        r.set_post_processor_sptr(make_filter(*c.fp_spec, c.filters_from_text));
+      return;
+    }
   if (c.iuf > 0)
     {
       o.fu.reset(new LogFilter(c.iuf_shift, &r));
@@ -661,6 +970,51 @@ all_finite(const Vec& v)
     if (!std::isfinite(x))
       return false;
   return true;
+}
+
+// NaN-aware tests (the libraries are built with -ffast-math, this harness is not): `x >= 0` is false for a NaN, so a NaN
+// counts as "not non-negative"; std::min_element / `min < 0` would let it pass
+static bool
+all_nonneg(const Vec& v)
+{
+  for (float x : v)
+    if (!(x >= 0))
+      return false;
+  return true;
+}
+static bool
+all_positive(const Vec& v)
+{
+  for (float x : v)
+    if (!(x > 0))
+      return false;
+  return true;
+}
+// largest element, NaN if there is one
+static float
+max_or_nan(const Vec& v)
+{
+  float m = -std::numeric_limits<float>::infinity();
+  for (float x : v)
+    {
+      if (x != x)
+        return x;
+      m = std::max(m, x);
+    }
+  return m;
+}
+static std::string
+first_not_nonneg(const Vec& v)
+{
+  long n = 0, first = -1;
+  for (std::size_t j = 0; j < v.size(); ++j)
+    if (!(v[j] >= 0))
+      {
+        ++n;
+        if (first < 0)
+          first = static_cast<long>(j);
+      }
+  return first < 0 ? std::string("none") : std::to_string(n) + " voxels negative or NaN, first: voxel " + std::to_string(first) + " = " + vh::hex(v[first]);
 }
 
 // one `upd` (+ optional `eoi`) operation from what was observed for sub-iteration k
@@ -819,6 +1173,15 @@ write_par(const Geo& g, const Data& d, const RunCfg& c, int start, int last, con
   if (c.clamps)
     f << "maximum relative change := " << fmt_double(c.maxrel) << "\n"
       << "minimum relative change := " << fmt_double(c.minrel) << "\n";
+  // filter stream: the user's filters as registered objects (`Chained Data Processor` and its members included)
+  if (c.fu_spec)
+    f << "inter-update filter subiteration interval := " << c.iuf << "\n"
+      << "inter-update filter type := " << filter_text(*c.fu_spec);
+  if (c.fi_spec)
+    f << "inter-iteration filter subiteration interval := " << c.iif << "\n"
+      << "inter-iteration filter type := " << filter_text(*c.fi_spec);
+  if (c.fp_spec)
+    f << "post-filter type := " << filter_text(*c.fp_spec);
   f << "End OSMAPOSLParameters :=\n";
   return fname;
 }
@@ -1114,7 +1477,7 @@ run_real_case(const std::string& name, const Geo& g, const Data& d, RunCfg c, vh
           // non-negative"; the formula is finite wherever s_S > 0 and 0 elsewhere).  The classes seen on the unchanged tree are
           // pinned: every non-finite voxel must have sensitivity 0 in the implementation, a positive numerator, and be seen
           // by the TOF matrix in this subset - anything else is an ORACLE-FAIL.
-          if (*std::min_element(before.begin(), before.end()) >= 0 && *std::max_element(before.begin(), before.end()) < 1e30F)
+          if (all_nonneg(before) && max_or_nan(before) < 1e30F)
             {
               ++g_checks;
               g_cov["real_nonfinite_judged"]++;
@@ -1164,13 +1527,13 @@ run_real_case(const std::string& name, const Geo& g, const Data& d, RunCfg c, vh
 
       // ---------------- ORACLE clauses on this step
       const bool filters = fu_fired || fi_fired;
-      const bool nonneg_in = *std::min_element(before.begin(), before.end()) >= 0;
+      const bool nonneg_in = all_nonneg(before);
       // (nonneg) non-negative images stay non-negative
       if (nonneg_in)
         {
           ++g_checks;
-          if (*std::min_element(after.begin(), after.end()) < 0)
-            oracle_fail("nonneg case=" + name + " k=" + std::to_string(k));
+          if (!all_nonneg(after))
+            oracle_fail("nonneg case=" + name + " k=" + std::to_string(k) + ": " + first_not_nonneg(after));
         }
       Explicit ex = explicit_quantities(g, d, c, before, subset);
       const double gam = 4. * (g.max_row + g.max_col + 16) * eps;
@@ -1334,7 +1697,7 @@ run_real_case(const std::string& name, const Geo& g, const Data& d, RunCfg c, vh
         {
           bool ok = true;
           int bad = -1;
-          const float gmax = *std::max_element(gps.begin(), gps.end());
+          const float gmax = max_or_nan(gps); // (finite: checked above)
           for (int j = 0; j < g.nvox && ok; ++j)
             {
               if (!(before[j] > 0) || !(gps[j] > 1e-4F * gmax) || !(sens[j] > 1e-4F * gmax))
@@ -1873,7 +2236,7 @@ run_real_case(const std::string& name, const Geo& g, const Data& d, RunCfg c, vh
               if (!bitwise_equal(to_vec(*r.get_target_image()), to_vec(*imc)))
                 oracle_fail("restart by parameter file: final image in memory differs, case=" + name + " k=" + std::to_string(k));
             }
-            const bool has_nonpos = *std::min_element(loaded.begin(), loaded.end()) <= 0;
+            const bool has_nonpos = !all_positive(loaded);
             if (has_nonpos)
               g_cov[enf ? "restart_points_with_exact_zeros_enforce_on" : "restart_points_with_exact_zeros_enforce_off"]++;
             if (!same)
@@ -1916,7 +2279,7 @@ run_real_case(const std::string& name, const Geo& g, const Data& d, RunCfg c, vh
                           if (!is_saved(m) || !file_exists(f))
                             continue;
                           const Vec r = read_image(f);
-                          const double mx = *std::max_element(saved[m].begin(), saved[m].end());
+                          const double mx = max_or_nan(saved[m]);
                           for (int j = 0; j < g.nvox && mx > 0; ++j)
                             worst = std::max(worst, std::fabs(static_cast<double>(r[j]) - saved[m][j]) / mx);
                         }
@@ -1941,6 +2304,594 @@ run_real_case(const std::string& name, const Geo& g, const Data& d, RunCfg c, vh
             oracle_fail("restarted run failed, case=" + name + " k=" + std::to_string(k) + ": " + e.what());
           }
       }
+}
+
+// ------------------------------------------------------------------------------------------------ filter stream
+// User filters that are real registered data processors — single ones and ChainedDataProcessor objects of the user (2 and 3
+// members, smoothing + sharpening in both orders, chains holding a thresholding already, nested chains, null members) — in the
+// inter-update, inter-iteration and post-filter slot, given through the setters or parsed from a parameter file, on an object
+// whose set_up() is called 1-3 times in a row.  Compared sub-iteration by sub-iteration with the Lean model of the slots
+// (`Slots.setUpN`, `updateEstimateS`, `endOfIterationS`: the model wraps the slot as set_up does and applies the object; what
+// every member filter returns is data, from a separate object of that member) and with the non-negativity clause (NaN-aware).
+static void
+put_leafs(FILE* f, const std::vector<Vec>& leafs)
+{
+  for (auto& v : leafs)
+    {
+      std::fprintf(f, " F ");
+      put_vec(f, v);
+    }
+}
+
+// an object configured by `c` (filter descriptions included), made through the setters or from a parameter file
+static Objects
+build_either(const Geo& g, const Data& d, const RunCfg& c, bool by_par, int start, int last, const std::string& prefix,
+             const std::string& initial)
+{
+  if (!by_par)
+    return build(g, d, c, start, last, prefix);
+  Objects o;
+  const std::string par = write_par(g, d, c, start, last, prefix, initial);
+  o.recon.reset(new OSMAPOSLReconstruction<TargetT>(par));
+  return o;
+}
+
+static void
+run_filter_case(const std::string& name, const Geo& g, const Data& d, vh::Rng& rng, const std::vector<int>& legal, bool thorough)
+{
+  RunCfg c;
+  c.nsub = legal[rng.range(0, static_cast<int>(legal.size()) - 1)];
+  c.start_subset = rng.range(0, c.nsub - 1);
+  c.N = rng.range(3, thorough ? 6 : 4);
+  c.use_subset_sens = rng.range(0, 3) != 0;
+  c.enforce = rng.range(0, 3) != 0;
+  if (rng.range(0, 2) == 0)
+    {
+      c.prior = rng.range(1, 2);
+      c.map = rng.range(1, 2);
+      c.beta = static_cast<float>(0.3 + rng.unit());
+    }
+  if (rng.range(0, 4) == 0)
+    {
+      c.clamps = true;
+      c.minrel = 0.25 * rng.range(0, 3);
+      c.maxrel = 1. + 0.25 * rng.range(0, 8);
+    }
+  // which object comes from a parameter file: 0 none (the harness-defined LogFilter may then be a member), 1 the stepwise
+  // object A, 2 the uninterrupted object B
+  const int par_obj = rng.range(0, 2);
+  const bool allow_log = par_obj == 0;
+  const int slots = rng.range(0, 5); // inter-update / inter-iteration: one of them, or both
+  if (slots != 1)
+    {
+      c.fu_spec.reset(new FSpec(random_slot(rng, allow_log)));
+      c.iuf = rng.range(1, 2);
+    }
+  if (slots == 1 || slots >= 3)
+    {
+      c.fi_spec.reset(new FSpec(random_slot(rng, allow_log)));
+      c.iif = rng.range(1, 2);
+    }
+  shared_ptr<FSpec> post_spec;
+  if (rng.coin())
+    post_spec.reset(new FSpec(random_slot(rng, allow_log)));
+  const int nsetups = rng.range(1, 3);
+  const bool a_par = par_obj == 1, b_par = par_obj == 2;
+
+  Vec start(g.nvox);
+  for (int j = 0; j < g.nvox; ++j)
+    start[j] = static_cast<float>(0.25 + 2 * rng.unit());
+  const std::string startfile = g_outdir + "/" + name + "_start.hv";
+  {
+    shared_ptr<TargetT> ims(g.tmpl->clone());
+    from_vec(*ims, start);
+    write_to_file(startfile, *ims);
+  }
+  put_cfg("filter", g.nvox, c);
+  g_cov["filter_cases"]++;
+  g_cov["filter_cases_setups_" + std::to_string(nsetups)]++;
+  g_cov[a_par ? "filter_cases_stepwise_object_from_parameter_file" : "filter_cases_stepwise_object_by_setters"]++;
+  for (const shared_ptr<FSpec>& sp : { c.fu_spec, c.fi_spec, post_spec })
+    if (sp)
+      {
+        g_cov[sp->has_chain() ? "filter_slots_user_chain" : "filter_slots_single_filter"]++;
+        if (sp->has_chain())
+          g_cov["filter_slots_user_chain_members_" + std::to_string(std::min(sp->members(), 4)) + (sp->members() >= 4 ? "plus" : "")]++;
+      }
+  if (c.fu_spec)
+    g_cov["filter_cases_inter_update_slot"]++;
+  if (c.fi_spec)
+    g_cov["filter_cases_inter_iteration_slot"]++;
+  if (post_spec)
+    g_cov["filter_cases_post_slot"]++;
+  const std::string slots_txt = std::string(" [inter-update: ") + (c.fu_spec ? c.fu_spec->name() + " every " + std::to_string(c.iuf) : "none")
+                                + ", inter-iteration: " + (c.fi_spec ? c.fi_spec->name() + " every " + std::to_string(c.iif) : "none")
+                                + ", post: " + (post_spec ? post_spec->name() : "none") + ", " + std::to_string(nsetups) + " set_up calls, "
+                                + (a_par ? "parameter file" : "setters") + "]";
+
+  // ---- A: one sub-iteration at a time; T: the twin without inter-iteration filter (shows the image after update_estimate)
+  Objects A, T;
+  shared_ptr<ObjT> probe;
+  shared_ptr<TargetT> image(g.tmpl->clone());
+  from_vec(*image, start);
+  try
+    {
+      RunCfg ca = c;
+      ca.filters_from_text = a_par;
+      A = build_either(g, d, ca, a_par, 1, c.N, g_outdir + "/" + name + "_a", startfile);
+      A.recon->set_disable_output(true);
+      Vec first;
+      for (int i = 0; i < nsetups; ++i)
+        {
+          if (A.recon->set_up(image) != Succeeded::yes)
+            throw std::runtime_error("set_up returned no");
+          if (i == 0)
+            first = to_vec(*image);
+        }
+      // ORACLE: further set_up calls leave the (already positive) start image alone
+      ++g_checks;
+      if (!bitwise_equal(first, to_vec(*image)))
+        oracle_fail("repeated set_up changes the start image again, case=" + name + slots_txt);
+      if (c.fi_spec)
+        {
+          RunCfg ct = c;
+          ct.fi_spec.reset();
+          ct.iif = 0;
+          ct.filters_from_text = a_par;
+          T = build(g, d, ct, 1, c.N, "");
+          shared_ptr<TargetT> timg(g.tmpl->clone());
+          from_vec(*timg, start);
+          if (T.recon->set_up(timg) != Succeeded::yes)
+            throw std::runtime_error("twin set_up returned no");
+        }
+      probe = make_obj(g, d, c);
+      probe->set_num_subsets(c.nsub);
+      shared_ptr<TargetT> tmp(g.tmpl->clone());
+      from_vec(*tmp, start);
+      if (probe->set_up(tmp) != Succeeded::yes)
+        throw std::runtime_error("probe set_up returned no");
+    }
+  catch (std::exception& e)
+    {
+      ++g_checks;
+      oracle_fail("filter case could not be set up, case=" + name + slots_txt + ": " + e.what());
+      return;
+    }
+  std::vector<Vec> stepwise;
+  bool finite = true;
+  for (int k = 1; k <= c.N && finite; ++k)
+    {
+      const int subset = expected_subset(c, k);
+      const Vec before = to_vec(*image);
+      shared_ptr<TargetT> gimg(g.tmpl->get_empty_copy());
+      probe->compute_sub_gradient_without_penalty_plus_sensitivity(*gimg, *image, subset);
+      const Vec gps = to_vec(*gimg);
+      const Vec sens = to_vec(probe->get_subset_sensitivity(subset));
+      Vec pg;
+      if (c.prior_active())
+        {
+          shared_ptr<TargetT> pimg(g.tmpl->get_empty_copy());
+          probe->get_prior_ptr()->compute_gradient(*pimg, *image);
+          pg = to_vec(*pimg);
+        }
+      if (!all_finite(gps) || !all_finite(sens) || !all_finite(pg))
+        {
+          g_cov["filter_nonfinite_data"]++;
+          break;
+        }
+      if (g.tof)
+        { // the two pinned TOF classes (known findings em-formula:tof-…: sensitivity 0 with a positive numerator, the update is
+          // inf whatever the filters do): judged, with their full signature, by the real stream; the case ends here
+          bool known = false;
+          for (int j = 0; j < g.nvox; ++j)
+            known = known || (sens[j] == 0.F && gps[j] > 0.F);
+          if (known)
+            {
+              g_cov["filter_cases_ended_by_pinned_tof_class"]++;
+              break;
+            }
+        }
+      const bool iu_fires = c.fu_spec && k % c.iuf == 0, ii_fires = c.fi_spec && k % c.iif == 0;
+      std::vector<Vec> leaf_u, leaf_i;
+      try
+        {
+          if (iu_fires)
+            {
+              shared_ptr<TargetT> tmp(g.tmpl->clone());
+              from_vec(*tmp, before);
+              walk_filter(*c.fu_spec, a_par, *tmp, leaf_u);
+            }
+          A.recon->set_start_subiteration_num(k);
+          A.recon->set_num_subiterations(k);
+          if (A.recon->reconstruct(image) != Succeeded::yes)
+            throw std::runtime_error("reconstruct returned no");
+        }
+      catch (std::exception& e)
+        {
+          ++g_checks;
+          oracle_fail("filter case failed at sub-iteration " + std::to_string(k) + ", case=" + name + slots_txt + ": " + e.what());
+          return;
+        }
+      const Vec after = to_vec(*image);
+      Vec after_update = after;
+      if (ii_fires)
+        {
+          shared_ptr<TargetT> timg(g.tmpl->clone());
+          from_vec(*timg, before);
+          T.recon->set_start_subiteration_num(k);
+          T.recon->set_num_subiterations(k);
+          T.recon->reconstruct(timg);
+          after_update = to_vec(*timg);
+          if (all_finite(after_update))
+            {
+              shared_ptr<TargetT> tmp(g.tmpl->clone());
+              from_vec(*tmp, after_update);
+              walk_filter(*c.fi_spec, a_par, *tmp, leaf_i);
+            }
+        }
+      bool leafs_finite = true;
+      for (auto& v : leaf_u)
+        leafs_finite = leafs_finite && all_finite(v);
+      for (auto& v : leaf_i)
+        leafs_finite = leafs_finite && all_finite(v);
+      // ORACLE (nonneg, NaN-aware): "with filters on, non-negative images stay non-negative" - judged before anything else
+      if (all_nonneg(before))
+        {
+          ++g_checks;
+          g_cov["filter_oracle_nonneg_steps"]++;
+          if (!all_nonneg(after))
+            oracle_fail("nonneg with filters on: case=" + name + " k=" + std::to_string(k) + slots_txt + ": " + first_not_nonneg(after));
+          // the filter stage itself: when the inter-iteration filter fired its (thresholded) output is the image: strictly positive
+          // (not where min_positive * 1e-6 underflows to 0 in float: then the smallest positive value of the output is < 1e-30 and
+          // zeros may stay - the property asks for non-negativity only)
+          if (ii_fires)
+            {
+              ++g_checks;
+              float minpos = std::numeric_limits<float>::infinity();
+              for (float v : after)
+                if (v > 0)
+                  minpos = std::min(minpos, v);
+              if (!all_positive(after) && !(minpos < 1e-30F))
+                oracle_fail("inter-iteration filter output not strictly positive (no thresholding behind the user's filter?): case=" + name
+                            + " k=" + std::to_string(k) + slots_txt);
+              else if (!all_positive(after))
+                g_cov["filter_threshold_underflow_steps"]++;
+            }
+        }
+      if (!leafs_finite)
+        { // a member filter overflowed: no rational data for the model
+          g_cov["filter_nonfinite_member_output"]++;
+          break;
+        }
+      // operations for the model
+      std::fprintf(g_ops, "upd %d %d %d", k, subset, ii_fires ? 1 : 0);
+      if (c.fu_spec)
+        std::fprintf(g_ops, " C %d %s", nsetups, c.fu_spec->descr().c_str());
+      std::fprintf(g_ops, " L ");
+      put_vec(g_ops, before);
+      std::fprintf(g_ops, " G ");
+      put_vec(g_ops, gps);
+      std::fprintf(g_ops, " S ");
+      put_vec(g_ops, sens);
+      if (c.prior_active())
+        {
+          std::fprintf(g_ops, " P ");
+          put_vec(g_ops, pg);
+        }
+      put_leafs(g_ops, leaf_u);
+      std::fprintf(g_ops, "\n");
+      put_vec(g_out, after_update);
+      std::fprintf(g_out, "\n");
+      g_cov["filter_subiterations"]++;
+      if (iu_fires)
+        g_cov["filter_inter_update_fired"]++;
+      if (ii_fires && all_finite(after_update))
+        {
+          std::fprintf(g_ops, "eoi %d C %d %s L ", k, nsetups, c.fi_spec->descr().c_str());
+          put_vec(g_ops, after_update);
+          put_leafs(g_ops, leaf_i);
+          std::fprintf(g_ops, "\n");
+          put_vec(g_out, after);
+          std::fprintf(g_out, "\n");
+          g_cov["filter_inter_iteration_fired"]++;
+        }
+      stepwise.push_back(after);
+      finite = all_finite(after);
+      if (!finite)
+        {
+          g_cov["filter_nonfinite"]++;
+          if (all_nonneg(before) && max_or_nan(before) < 1e30F)
+            {
+              ++g_checks;
+              oracle_fail("a finite non-negative image became non-finite (filters on), case=" + name + " k=" + std::to_string(k) + slots_txt);
+            }
+        }
+    }
+  if (!finite || static_cast<int>(stepwise.size()) != c.N)
+    return;
+
+  // ---- B: one uninterrupted run of an object made the OTHER way (setters <-> parameter file), set_up called `nsetups` times,
+  //         with the post-filter: saved iterates = stepwise iterates (bitwise), the last one post-filtered (operation `post`:
+  //         set_up does not wrap the post-filter, its output is saved as it is)
+  const std::string prefB = g_outdir + "/" + name + "_b";
+  try
+    {
+      RunCfg cb = c;
+      cb.fp_spec = post_spec;
+      cb.filters_from_text = b_par;
+      Objects B = build_either(g, d, cb, b_par, 1, c.N, prefB, startfile);
+      shared_ptr<TargetT> imb(g.tmpl->clone());
+      from_vec(*imb, start);
+      for (int i = 0; i < (b_par ? nsetups - 1 : nsetups); ++i)
+        if (B.recon->set_up(imb) != Succeeded::yes)
+          throw std::runtime_error("set_up B");
+      if ((b_par ? B.recon->reconstruct() : B.recon->reconstruct(imb)) != Succeeded::yes) // (no-argument form: one more set_up)
+        throw std::runtime_error("reconstruct B returned no");
+      g_cov[b_par ? "filter_uninterrupted_runs_parameter_file" : "filter_uninterrupted_runs_setters"]++;
+      bool b_ok = true;
+      for (int k = 1; k <= c.N; ++k)
+        {
+          const std::string f = prefB + "_" + std::to_string(k) + ".hv";
+          ++g_checks;
+          b_ok = false;
+          if (!file_exists(f))
+            {
+              oracle_fail("uninterrupted run with user filters did not save iterate " + std::to_string(k) + ", case=" + name + slots_txt);
+              break;
+            }
+          const Vec sv = read_image(f);
+          if (k < c.N || !post_spec)
+            {
+              if (!bitwise_equal(sv, stepwise[k - 1]))
+                {
+                  oracle_fail(std::string("stepwise run and uninterrupted run (object made ") + (b_par ? "from a parameter file" : "by setters")
+                              + ") differ after sub-iteration " + std::to_string(k) + ", case=" + name + slots_txt);
+                  break;
+                }
+              if (k < c.N && post_spec)
+                { // (the model: the post-filter is not called before the last sub-iteration)
+                  std::fprintf(g_ops, "post %d %d 0 C %d %s L ", k, c.N, nsetups, post_spec->descr().c_str());
+                  put_vec(g_ops, stepwise[k - 1]);
+                  std::fprintf(g_ops, "\n");
+                  put_vec(g_out, sv);
+                  std::fprintf(g_out, "\n");
+                }
+            }
+          else
+            {
+              std::vector<Vec> leaf_p;
+              shared_ptr<TargetT> tmp(g.tmpl->clone());
+              from_vec(*tmp, stepwise[k - 1]);
+              walk_filter(*post_spec, b_par, *tmp, leaf_p);
+              bool lf = all_finite(sv);
+              for (auto& v : leaf_p)
+                lf = lf && all_finite(v);
+              if (!lf)
+                break;
+              std::fprintf(g_ops, "post %d %d 1 C %d %s L ", k, c.N, nsetups, post_spec->descr().c_str());
+              put_vec(g_ops, stepwise[k - 1]);
+              put_leafs(g_ops, leaf_p);
+              std::fprintf(g_ops, "\n");
+              put_vec(g_out, sv);
+              std::fprintf(g_out, "\n");
+              g_cov["filter_post_filtered_iterates"]++;
+              // ORACLE: bitwise the members applied one by one to the last iterate
+              if (!bitwise_equal(sv, to_vec(*tmp)))
+                oracle_fail("post-filtered last iterate is not the user's post-filter applied to the last iterate, case=" + name + slots_txt);
+            }
+          b_ok = true;
+        }
+      // ---- C: one restart point: an object of its own (made like B, set_up called `nsetups` times), started at k+1 from the
+      //         image saved after k, saves bitwise what B saved (judged where set_up has nothing to lift in the saved image: the
+      //         other inputs are those of the known finding restart:enforce-initial-positivity-lifts-exact-zeros, real stream)
+      if (b_ok && c.N >= 2)
+        {
+          const int k = rng.range(1, c.N - 1);
+          const std::string fk = prefB + "_" + std::to_string(k) + ".hv", prefC = g_outdir + "/" + name + "_c";
+          if (!c.enforce || all_positive(read_image(fk)))
+            {
+              Objects C = build_either(g, d, cb, b_par, k + 1, c.N, prefC, fk);
+              shared_ptr<TargetT> imc(read_from_file<TargetT>(fk));
+              for (int i = 0; i < (b_par ? nsetups - 1 : nsetups); ++i)
+                if (C.recon->set_up(imc) != Succeeded::yes)
+                  throw std::runtime_error("set_up C");
+              if ((b_par ? C.recon->reconstruct() : C.recon->reconstruct(imc)) != Succeeded::yes)
+                throw std::runtime_error("reconstruct C returned no");
+              g_cov["filter_restart_points"]++;
+              for (int m = k + 1; m <= c.N; ++m)
+                {
+                  bool both;
+                  ++g_checks;
+                  if (!same_files(prefC + "_" + std::to_string(m) + ".hv", prefB + "_" + std::to_string(m) + ".hv", both) || !both)
+                    {
+                      oracle_fail("restart at k+1=" + std::to_string(k + 1) + " with user filters differs from the uninterrupted run at iterate "
+                                  + std::to_string(m) + ", case=" + name + slots_txt);
+                      break;
+                    }
+                }
+            }
+        }
+    }
+  catch (std::exception& e)
+    {
+      ++g_checks;
+      oracle_fail("uninterrupted run with user filters failed, case=" + name + slots_txt + ": " + e.what());
+    }
+}
+
+// the data processors on their own: a described object (made by constructors or parsed), applied to an image with zeros and
+// negatives, against the model's `Filt.apply` (operation `flt`); the thresholding processor alone also on images without any
+// positive value
+static void
+run_flt_cases(const Geo& g, vh::Rng& rng, int count)
+{
+  for (int t = 0; t < count; ++t)
+    {
+      const bool from_text = rng.coin();
+      const FSpec spec = t % 3 == 0 ? FSpec::leaf(6) : random_slot(rng, !from_text);
+      const int style = rng.range(0, 3);
+      Vec in(g.nvox);
+      for (int j = 0; j < g.nvox; ++j)
+        {
+          in[j] = static_cast<float>(0.1 + 2 * rng.unit());
+          if (style >= 1 && rng.range(0, 4) == 0)
+            in[j] = 0.F;
+          if (style >= 2 && rng.range(0, 4) == 0)
+            in[j] = -static_cast<float>(rng.unit());
+          if (style == 3 && in[j] > 0)
+            in[j] = rng.coin() ? 0.F : -in[j]; // nothing positive
+        }
+      try
+        {
+          shared_ptr<TargetT> img(g.tmpl->clone());
+          from_vec(*img, in);
+          shared_ptr<DataProcessor<TargetT>> obj = make_filter(spec, from_text);
+          if (obj->apply(*img) != Succeeded::yes)
+            throw std::runtime_error("apply returned no");
+          const Vec out = to_vec(*img);
+          std::vector<Vec> leafs;
+          shared_ptr<TargetT> tmp(g.tmpl->clone());
+          from_vec(*tmp, in);
+          walk_filter(spec, from_text, *tmp, leafs);
+          bool lf = all_finite(out);
+          for (auto& v : leafs)
+            lf = lf && all_finite(v);
+          if (!lf)
+            continue;
+          std::fprintf(g_ops, "flt C 0 %s L ", spec.descr().c_str());
+          put_vec(g_ops, in);
+          put_leafs(g_ops, leafs);
+          std::fprintf(g_ops, "\n");
+          put_vec(g_out, out);
+          std::fprintf(g_out, "\n");
+          g_cov[spec.kind == 6 ? "data_processor_ops_threshold_alone" : "data_processor_ops_user_objects"]++;
+          // ORACLE: the thresholding processor delivers a strictly positive image and keeps what was positive
+          if (spec.kind == 6)
+            {
+              ++g_checks;
+              bool ok = true;
+              for (int j = 0; j < g.nvox; ++j)
+                ok = ok && out[j] > 0 && (!(in[j] > 0) || out[j] >= in[j]);
+              if (!ok)
+                oracle_fail("ThresholdMinToSmallPositiveValueDataProcessor: output not strictly positive");
+            }
+        }
+      catch (std::exception& e)
+        {
+          ++g_checks;
+          oracle_fail(std::string("data processor ") + spec.name() + " failed: " + e.what());
+        }
+    }
+}
+
+// ------------------------------------------------------------------------------------------------ viewgram space
+// divide_and_truncate (the quotient y / (A lambda + a) of the update) through the public function on related viewgrams of the
+// geometry: all-zero viewgrams (0/0), zero and negative denominators, zero / tiny / negative numerators, regular values.
+// ORACLE (NaN-aware): every quotient is a number in [0, 10^4]; a bin without counts gives exactly 0 (0/0 included); on the
+// regular region it is y/ybar.  The Lean model (`divideAndTruncate`) answers the same viewgrams (operation `dvt`).
+static void
+run_divide_cases(const Geo& g, vh::Rng& rng, int count)
+{
+  shared_ptr<ProjMatrixByBinUsingRayTracing> pm = make_pm(g.symflags);
+  pm->set_up(g.pdi, g.tmpl);
+  const shared_ptr<DataSymmetriesForViewSegmentNumbers> sym = pm->get_symmetries_sptr();
+  shared_ptr<ExamInfo> ei(new ExamInfo);
+  ei->imaging_modality = ImagingModality::PT;
+  ProjDataInMemory pd(ei, g.pdi);
+  for (int t = 0; t < count; ++t)
+    {
+      const int style = t % 6;
+      ViewSegmentNumbers vs(rng.range(g.pdi->get_min_view_num(), g.pdi->get_max_view_num()),
+                            rng.range(g.pdi->get_min_segment_num(), g.pdi->get_max_segment_num()));
+      sym->find_basic_view_segment_numbers(vs);
+      const int tpos = rng.range(g.pdi->get_min_tof_pos_num(), g.pdi->get_max_tof_pos_num());
+      RelatedViewgrams<float> num = pd.get_empty_related_viewgrams(vs, sym, false, tpos);
+      RelatedViewgrams<float> den = pd.get_empty_related_viewgrams(vs, sym, false, tpos);
+      {
+        RelatedViewgrams<float>::iterator ni = num.begin(), di = den.begin();
+        for (; ni != num.end(); ++ni, ++di)
+          for (int ax = ni->get_min_axial_pos_num(); ax <= ni->get_max_axial_pos_num(); ++ax)
+            for (int tang = ni->get_min_tangential_pos_num(); tang <= ni->get_max_tangential_pos_num(); ++tang)
+              {
+                float y = 0.F, q = 0.F;
+                switch (style)
+                  {
+                  case 0: // 0/0 everywhere
+                    break;
+                  case 1: // no counts, any denominator
+                    q = rng.range(0, 2) == 0 ? 0.F : static_cast<float>(-1 + 3 * rng.unit());
+                    break;
+                  case 2: // counts, positive estimate
+                    y = static_cast<float>(poisson(rng, 3.));
+                    q = static_cast<float>(0.05 + 4 * rng.unit());
+                    break;
+                  case 3: // counts, estimate with zeros (quotient truncated to 10^4) and negatives
+                    y = static_cast<float>(poisson(rng, 2.));
+                    q = rng.range(0, 2) == 0 ? 0.F : (rng.range(0, 3) == 0 ? -static_cast<float>(rng.unit()) : static_cast<float>(0.05 + 4 * rng.unit()));
+                    break;
+                  case 4: // tiny and negative numerators (far below max * 1e-6), estimate far below y / 10^4
+                    {
+                      const int u = rng.range(0, 4);
+                      y = u == 0 ? 0.F : (u == 1 ? 1e-9F * static_cast<float>(1 + rng.unit()) : (u == 2 ? -static_cast<float>(rng.unit()) : static_cast<float>(1 + poisson(rng, 4.))));
+                      q = rng.range(0, 2) == 0 ? 1e-7F * static_cast<float>(1 + rng.unit()) : static_cast<float>(0.05 + 4 * rng.unit());
+                    }
+                    break;
+                  default: // only non-positive numerators (the threshold max * 1e-6 is clamped to 0)
+                    y = rng.coin() ? 0.F : -static_cast<float>(rng.unit());
+                    q = static_cast<float>(-1 + 3 * rng.unit());
+                  }
+                (*ni)[ax][tang] = y;
+                (*di)[ax][tang] = q;
+              }
+      }
+      const RelatedViewgrams<float> orig = num;
+      int count1 = 0, count2 = 0;
+      double ll = 0;
+      divide_and_truncate(num, den, 0, count1, count2, (t & 1) ? &ll : nullptr);
+      ++g_checks;
+      if (!std::isfinite(ll))
+        oracle_fail("divide_and_truncate: log-likelihood contribution not finite, style " + std::to_string(style));
+      RelatedViewgrams<float>::const_iterator oi = orig.begin(), di = den.begin();
+      for (RelatedViewgrams<float>::const_iterator ni = num.begin(); ni != num.end(); ++ni, ++oi, ++di)
+        {
+          Vec y, q, r;
+          float ymax = -std::numeric_limits<float>::infinity();
+          for (int ax = ni->get_min_axial_pos_num(); ax <= ni->get_max_axial_pos_num(); ++ax)
+            for (int tang = ni->get_min_tangential_pos_num(); tang <= ni->get_max_tangential_pos_num(); ++tang)
+              {
+                y.push_back((*oi)[ax][tang]);
+                q.push_back((*di)[ax][tang]);
+                r.push_back((*ni)[ax][tang]);
+                ymax = std::max(ymax, (*oi)[ax][tang]);
+              }
+          std::fprintf(g_ops, "dvt Y ");
+          put_vec(g_ops, y);
+          std::fprintf(g_ops, " D ");
+          put_vec(g_ops, q);
+          std::fprintf(g_ops, "\n");
+          put_vec(g_out, r);
+          std::fprintf(g_out, "\n");
+          g_cov["divide_and_truncate_viewgrams"]++;
+          if (style == 0)
+            g_cov["divide_and_truncate_viewgrams_all_zero"]++;
+          ++g_checks;
+          const double small = std::max(static_cast<double>(ymax) * 1e-6, 0.);
+          for (std::size_t i = 0; i < y.size(); ++i)
+            {
+              bool ok = r[i] >= 0 && r[i] <= 10000.F; // (false for a NaN)
+              if (y[i] == 0.F)
+                ok = ok && r[i] == 0.F; // 0 / anything, 0/0 included
+              else if (y[i] > 2 * small && y[i] < 9999. * q[i])
+                ok = ok && std::fabs(r[i] - static_cast<double>(y[i]) / q[i]) <= 4 * std::ldexp(1., -24) * (static_cast<double>(y[i]) / q[i]);
+              if (!ok)
+                {
+                  oracle_fail("divide_and_truncate: bin with numerator " + vh::hex(y[i]) + ", denominator " + vh::hex(q[i]) + " (viewgram maximum "
+                              + vh::hex(ymax) + ") gives " + vh::hex(r[i]) + ": not a quotient in [0, 10^4] / not 0 for a bin without counts / not y/ybar");
+                  break;
+                }
+            }
+        }
+    }
 }
 
 // ------------------------------------------------------------------------------------------------ synthetic stream
@@ -2078,11 +3029,11 @@ run_synth_case(const Geo& g, const Data& d, vh::Rng& rng, int steps, const std::
           break;
         }
       // ORACLE (nonneg) when everything fed in is non-negative and consistent
-      if (!hostile && *std::min_element(before.begin(), before.end()) >= 0)
+      if (!hostile && all_nonneg(before))
         {
           ++g_checks;
-          if (*std::min_element(after.begin(), after.end()) < 0)
-            oracle_fail("nonneg (synthetic data) k=" + std::to_string(k));
+          if (!all_nonneg(after))
+            oracle_fail("nonneg (synthetic data) k=" + std::to_string(k) + ": " + first_not_nonneg(after));
         }
     }
 }
@@ -2348,6 +3299,8 @@ main(int argc, char** argv)
 
   run_restart_witness();
 
+  vh::Rng frng(seed * 2654435761ULL + 77); // filter / data-processor / viewgram streams
+  int filter_case_no = 0;
   const int ngeo = thorough ? 28 : 8; // (thorough: 28 geometries x 4 data sets x all legal subset numbers x 3 variants, all with restarts)
   int case_no = 0;
   for (int gi = 0; gi < ngeo; ++gi)
@@ -2484,7 +3437,13 @@ main(int argc, char** argv)
             run_setup_case(g, d, rng);
           if (di == 0)
             run_range_cases(g, d, rng, legal, thorough ? 40 : 20);
+          // filter stream (its own random stream: the cases above are those of the earlier rounds)
+          for (int s = 0; s < (thorough ? 8 : 3); ++s)
+            run_filter_case("f" + std::to_string(filter_case_no++) + "sp" + std::to_string(g.span) + "m" + std::to_string(g.mash) + (g.tof ? "tof" : ""), g, d,
+                            frng, legal, thorough);
         }
+      run_flt_cases(g, frng, thorough ? 24 : 9);
+      run_divide_cases(g, frng, thorough ? 24 : 12);
     }
 
   for (auto& kv : g_cov)
